@@ -665,8 +665,11 @@ Fixpoint wf_anc (anc : list (nat * Z)) : Prop :=
   | [] => True
   end.
 
-(* if the very first step goes INTO a trough it must span at least two samples, so that the
-   +pi branch is visibly increasing there (otherwise the start mask begins later) *)
+(* "the very first step, if it goes INTO a trough, spans at least two samples".  This used to be a
+   third clause of wf_cps: the start mask before its repair looked for the first INCREASING step
+   and so began one sample late when the first step was a one-sample wrap.  The repaired start
+   mask (first non-zero step) does not need it; it is kept only to describe where the legacy start
+   mask goes wrong (phase_legacy_start_refuted). *)
 Definition first_gap (anc : list (nat * Z)) : Prop :=
   match anc with
   | (a0, _) :: (a1, v1) :: _ => v1 = (-2)%Z -> a0 + 2 <= a1
@@ -674,7 +677,7 @@ Definition first_gap (anc : list (nat * Z)) : Prop :=
   end.
 
 Definition wf_cps (c : cps) : Prop :=
-  wf_anc (anchors (-2) c) /\ 2 <= length (anchors (-2) c) /\ first_gap (anchors (-2) c).
+  wf_anc (anchors (-2) c) /\ 2 <= length (anchors (-2) c).
 
 (* the precondition in the form suggested by the property text (every step into a trough spans
    two samples) is stronger than what is needed *)
@@ -684,9 +687,7 @@ Definition wf_cps_all_gaps (c : cps) : Prop :=
 
 Lemma wf_cps_all_gaps_wf c : wf_cps_all_gaps c -> wf_cps c.
 Proof.
-  intros [Hwf [Hlen Hgap]]. split; [assumption|]. split; [assumption|].
-  destruct (anchors (-2) c) as [|[a0 v0] [|[a1 v1] t]]; cbn; auto.
-  intros ->. apply (Hgap a0 v0 a1). exists [], t. reflexivity.
+  intros [Hwf [Hlen _]]. split; assumption.
 Qed.
 
 Lemma wf_anc_tail p l : wf_anc (p :: l) -> wf_anc l.
@@ -757,7 +758,7 @@ Proof.
   unfold wf_cps.
   match goal with |- context [anchors ?tv ?c] =>
     let a := eval vm_compute in (anchors tv c) in change (anchors tv c) with a end.
-  cbn [wf_anc first_gap length]. repeat split; lia.
+  cbn [wf_anc length]. repeat split; lia.
 Qed.
 
 Example wf_example_all_gaps : wf_cps_all_gaps ex_full.
@@ -974,7 +975,6 @@ Hypothesis Hs : sorted_anc anc.
 Hypothesis Hwf : wf_anc anc.
 Hypothesis Hn : forall a v, In (a, v) anc -> a < n.
 Hypothesis Hlen : 2 <= length anc.
-Hypothesis Hgap : first_gap anc.
 
 Lemma first_lt_last F vF rest pre L vL :
   anc = (F, vF) :: rest -> anc = pre ++ [(L, vL)] -> F < L.
@@ -991,17 +991,22 @@ Proof.
   intro HdL. apply (Hn L vL). rewrite HdL. apply in_or_app. right. now left.
 Qed.
 
-Lemma first_step_pos F vF rest : anc = (F, vF) :: rest -> (mg anc n F < mg anc n (S F))%Q.
+(* the step leaving the first anchor is never zero: it is a strict increase (towards the next
+   anchor value, or towards +2 when the next anchor is a trough further away) or the one-sample
+   wrap from a non-negative value onto -2 *)
+Lemma first_step_nonzero F vF rest : anc = (F, vF) :: rest ->
+  ~ (mg anc n (S F) - mg anc n F == 0)%Q.
 Proof.
-  intro HdF. destruct rest as [|[a1 v1] rest'].
-  { exfalso. pose proof Hlen as Hl. rewrite HdF in Hl. cbn in Hl. lia. }
+  intros HdF Hz. destruct rest as [|[a1 v1] rest'].
+  { pose proof Hlen as Hl. rewrite HdF in Hl. cbn in Hl. lia. }
   assert (Hadj : adjacent (F, vF) (a1, v1) anc) by (exists [], rest'; exact HdF).
   destruct (wf_anc_adj _ _ _ _ _ Hwf Hadj) as [H01 [R0 [R1 Hcase]]].
   destruct (lt_dec (S F) a1) as [Hin|Hend].
-  - apply (mg_step_inner anc n Hs Hwf Hn F vF a1 v1); [assumption|lia|assumption].
-  - apply (mg_step_adv anc n Hs Hwf Hn F vF a1 v1); [assumption|lia|lia|].
-    destruct Hcase as [Hadv|[Hv1 Hv0]]; [assumption|].
-    exfalso. pose proof Hgap as Hg. rewrite HdF in Hg. cbn [first_gap] in Hg. specialize (Hg Hv1). lia.
+  - pose proof (mg_step_inner anc n Hs Hwf Hn F vF a1 v1 F Hadj ltac:(lia) Hin) as Hlt. lra.
+  - assert (E : S F = a1) by lia. destruct Hcase as [Hadv|[Hv1 Hv0]].
+    + pose proof (mg_step_adv anc n Hs Hwf Hn F vF a1 v1 F Hadj ltac:(lia) E Hadv) as Hlt. lra.
+    + subst v1.
+      destruct (mg_step_wrap anc n Hs Hwf Hn F vF a1 F Hadj ltac:(lia) E) as [W1 [W2 W3]]. lra.
 Qed.
 
 Lemma last_step_nonzero pre L vL : anc = pre ++ [(L, vL)] -> 1 <= L ->
@@ -1022,20 +1027,24 @@ Proof.
 Qed.
 
 Lemma find_first F vF rest pre L vL : anc = (F, vF) :: rest -> anc = pre ++ [(L, vL)] ->
-  find_idx (fun i => is_pos (step (map Some (map (mg anc n) (seq 0 n))) i)) (seq 0 (n - 1)) = Some F.
+  find_idx (fun i => is_nonzero (step (map Some (map (mg anc n) (seq 0 n))) i)) (seq 0 (n - 1)) = Some F.
 Proof.
   intros HdF HdL. pose proof (first_lt_last _ _ _ _ _ _ HdF HdL) as HFL.
   pose proof (last_lt_n _ _ _ HdL) as HLn.
   apply find_idx_seq0; [lia| |].
-  - intros j Hj. rewrite step_pha.
-    assert (E : S j <? n = true) by (apply Nat.ltb_lt; lia). rewrite E. cbn [is_pos].
-    apply Qltb_false. rewrite (mg_before anc n F vF rest j HdF Hj).
-    destruct (Nat.eq_dec (S j) F) as [EF|NF].
-    + rewrite EF. rewrite (mg_anchor anc n Hs Hwf Hn F vF) by (rewrite HdF; now left). lra.
-    + rewrite (mg_before anc n F vF rest (S j) HdF) by lia. lra.
+  - (* before the first anchor the merged series is the constant vF *)
+    intros j Hj. rewrite step_pha.
+    assert (E : S j <? n = true) by (apply Nat.ltb_lt; lia). rewrite E. cbn [is_nonzero].
+    assert (Q0 : (mg anc n (S j) - mg anc n j == 0)%Q).
+    { rewrite (mg_before anc n F vF rest j HdF Hj).
+      destruct (Nat.eq_dec (S j) F) as [EF|NF].
+      + rewrite EF. rewrite (mg_anchor anc n Hs Hwf Hn F vF) by (rewrite HdF; now left). ring.
+      + rewrite (mg_before anc n F vF rest (S j) HdF) by lia. ring. }
+    apply Qeq_bool_iff in Q0. now rewrite Q0.
   - rewrite step_pha.
-    assert (E : S F <? n = true) by (apply Nat.ltb_lt; lia). rewrite E. cbn [is_pos].
-    apply Qltb_true. pose proof (first_step_pos F vF rest HdF). lra.
+    assert (E : S F <? n = true) by (apply Nat.ltb_lt; lia). rewrite E. cbn [is_nonzero].
+    destruct (Qeq_bool (mg anc n (S F) - mg anc n F) 0) eqn:Eq; [|reflexivity].
+    apply Qeq_bool_iff in Eq. exfalso. now apply (first_step_nonzero F vF rest HdF).
 Qed.
 
 Lemma find_last F vF rest pre L vL : anc = (F, vF) :: rest -> anc = pre ++ [(L, vL)] ->
@@ -1098,7 +1107,7 @@ Lemma wf_decomp c : wf_cps c -> exists F vF rest pre L vL,
   anchors (-2) c = (F, vF) :: rest /\ anchors (-2) c = pre ++ [(L, vL)] /\
   first_idx c = F /\ last_idx c = L.
 Proof.
-  intros [_ [Hlen _]]. unfold first_idx, last_idx.
+  intros [_ Hlen]. unfold first_idx, last_idx.
   destruct (anchors (-2) c) as [|[F vF] rest] eqn:E; [cbn in Hlen; lia|].
   destruct (exists_last (l := (F, vF) :: rest)) as [pre [[L vL] Hd]]; [discriminate|].
   exists F, vF, rest, pre, L, vL. split; [reflexivity|]. split; [assumption|]. split; [reflexivity|].
@@ -1127,7 +1136,7 @@ Lemma phase_wf c F vF rest pre L vL : wf_cps c ->
   phase c = Ok (mask_from (S L) (mask_before F
                  (map Some (map (mg (anchors (-2) c) (c_n c)) (seq 0 (c_n c)))))).
 Proof.
-  intros [Hwf [Hlen Hgap]] HdF HdL. unfold phase, phase_gen. rewrite anchors_pi_npi.
+  intros [Hwf Hlen] HdF HdL. unfold phase, phase_gen. rewrite anchors_pi_npi.
   rewrite (interp_ok (map flipa (anchors (-2) c))) by (rewrite HdF; discriminate). cbn [bind].
   rewrite (interp_ok (anchors (-2) c)) by (rewrite HdF; discriminate). cbn [bind].
   fold (samp (map flipa (anchors (-2) c))). fold (samp (anchors (-2) c)).
@@ -1182,7 +1191,7 @@ Proof.
   rewrite (phase_onth c ph i Hwf Hph Hi).
   apply Nat.leb_le in H1. apply Nat.leb_le in H2. rewrite H1, H2. cbn [andb].
   eexists. split; [reflexivity|].
-  destruct Hwf as [Hwf [Hlen Hgap]].
+  destruct Hwf as [Hwf Hlen].
   apply (mg_anchor (anchors (-2) c) (c_n c) (anchors_sorted (-2) c) Hwf).
   - intros a w Hin. now apply anchors_In in Hin.
   - apply anchors_In. auto.
@@ -1239,7 +1248,7 @@ Proof.
   assert (E4 : S i <=? last_idx c = true) by (apply Nat.leb_le; lia).
   rewrite E1, E2 in Ha. rewrite E3, E4 in Hb. cbn [andb] in Ha, Hb.
   inversion Ha; inversion Hb; subst a b. clear Ha Hb.
-  destruct Hwf as [Hwf [Hlen Hgap]].
+  destruct Hwf as [Hwf Hlen].
   assert (Hn : forall a v, In (a, v) (anchors (-2) c) -> a < c_n c).
   { intros a w Hin. now apply anchors_In in Hin. }
   destruct (mg_step (anchors (-2) c) (c_n c) (anchors_sorted (-2) c) Hwf Hn F vF rest pre L vL i HdF HdL
@@ -1273,14 +1282,14 @@ Proof.
   assert (E1 : first_idx c <=? x = true) by (apply Nat.leb_le; lia).
   assert (E2 : x <=? last_idx c = true) by (apply Nat.leb_le; lia).
   rewrite E1, E2. cbn [andb]. eexists. split; [reflexivity|].
-  destruct Hwf as [Hwf [Hlen Hgap]].
+  destruct Hwf as [Hwf Hlen].
   apply (mg_interval (anchors (-2) c) (c_n c) (anchors_sorted (-2) c) Hwf); [|assumption|assumption].
   intros a w Hin. now apply anchors_In in Hin.
 Qed.
 
 (* ------------------------------------------------------------------------------------------ *)
-(* extras: same sample indices in both series; a boolean checker for the precondition; the
-   first-gap clause cannot be dropped *)
+(* extras: same sample indices in both series; a boolean checker for the precondition; the start
+   mask before its repair is refuted *)
 
 Lemma anchors_pi_npi_fst c : map fst (anchors 2 c) = map fst (anchors (-2) c).
 Proof. rewrite anchors_pi_npi. apply map_flipa_fst. Qed.
@@ -1299,7 +1308,7 @@ Definition first_gapb (anc : list (nat * Z)) : bool :=
   | _ => true
   end.
 Definition wf_cpsb (c : cps) : bool :=
-  wf_ancb (anchors (-2) c) && (2 <=? length (anchors (-2) c)) && first_gapb (anchors (-2) c).
+  wf_ancb (anchors (-2) c) && (2 <=? length (anchors (-2) c)).
 
 Lemma wf_ancb_sound anc : wf_ancb anc = true -> wf_anc anc.
 Proof.
@@ -1324,25 +1333,35 @@ Qed.
 
 Lemma wf_cpsb_sound c : wf_cpsb c = true -> wf_cps c.
 Proof.
-  unfold wf_cpsb, wf_cps. rewrite !andb_true_iff. intros [[H1 H2] H3].
-  split; [now apply wf_ancb_sound|]. split; [now apply Nat.leb_le in H2|now apply first_gapb_sound].
+  unfold wf_cpsb, wf_cps. rewrite !andb_true_iff. intros [H1 H2].
+  split; [now apply wf_ancb_sound|now apply Nat.leb_le in H2].
 Qed.
 
 Example wf_example_by_checker : wf_cps ex_full.
 Proof. apply wf_cpsb_sound. vm_compute. reflexivity. Qed.
 
-(* without the first-gap clause the span statement fails: peak at 0, trough at 1, peak at 2 satisfies
-   wf_anc and has three anchors, but the first step is the one-sample wrap 0 -> -2, so the start
-   mask only ends at sample 1 and the first cyclepoint is NaN *)
+(* P8': the start mask before its repair (first INCREASING step) is refuted.  Decay midpoint at 0,
+   trough at 1, peak at 4: well-formed, but the first step is the one-sample wrap +1 -> -2, which is
+   a decrease, so the old start mask only begins at sample 1 and the first cyclepoint is NaN; the
+   repaired start mask (first non-zero step) keeps it. *)
 Definition ex_nogap : cps :=
-  {| c_n := 4; c_peaks := [0; 2]; c_troughs := [1]; c_rises := None; c_decays := None |}.
+  {| c_n := 6; c_peaks := [4]; c_troughs := [1]; c_rises := None; c_decays := Some [0] |}.
 
-Example first_gap_needed :
-  wf_anc (anchors (-2) ex_nogap) /\ 2 <= length (anchors (-2) ex_nogap) /\
-  ~ first_gap (anchors (-2) ex_nogap) /\ first_idx ex_nogap = 0 /\
-  phase ex_nogap = Ok [None; Some (-2)%Q; Some 0%Q; None].
+Theorem phase_legacy_start_refuted :
+  wf_cps ex_nogap /\ first_idx ex_nogap = 0 /\
+  rmap (fun l => onth l 0) (phase_legacy_start ex_nogap) = Ok None /\
+  rmap (fun l => onth l 0) (phase ex_nogap) = Ok (Some 1%Q).
 Proof.
-  split; [apply wf_ancb_sound; vm_compute; reflexivity|].
-  split; [vm_compute; lia|]. split; [|split; vm_compute; reflexivity].
+  split; [apply wf_cpsb_sound; vm_compute; reflexivity|].
+  split; [|split]; vm_compute; reflexivity.
+Qed.
+
+Example phase_nogap :
+  ~ first_gap (anchors (-2) ex_nogap) /\
+  phase ex_nogap = Ok [Some 1%Q; Some (-2)%Q; Some (-4 # 3)%Q; Some (-2 # 3)%Q; Some 0%Q; None] /\
+  phase_legacy_start ex_nogap
+    = Ok [None; Some (-2)%Q; Some (-4 # 3)%Q; Some (-2 # 3)%Q; Some 0%Q; None].
+Proof.
+  split; [|split; vm_compute; reflexivity].
   vm_compute. intro H. specialize (H eq_refl). lia.
 Qed.
